@@ -18,8 +18,10 @@ THEOREM_NAMES = ['run_fuel_mono', 'run_fuel_mono_false', 'word_munch', 'expandTa
                  'document_tabs_rt', 'stmt_tabs_rt', 'stmtTextT_dl_domain', 'stmtTextT_dl_domain_dtype', 'stmtTextT_sl_domain',
                  'stmtTextT_sl_domain_len', 'stmtTextT_comp_domain', 'stmtTextT_resting', 'stmtTextT_complex', 'stmtTextT_structure',
                  'stmtTextT_reaction_plain', 'stmtTextT_kernel', 'stmtTextB_kernel_spaced', 'dl_domain_tabs_rt', 'sl_domain_tabs_rt',
-                 'comp_domain_tabs_rt', 'kernel_tabs_rt']
-THEOREMS = ['Dsd.C13.' + t for t in THEOREM_NAMES] + ['Dsd.PP.Tabs.expandTabs_tok', 'Dsd.PP.Tabs.expandTabs_sep', 'Dsd.PP.Tabs.expand_template']
+                 'comp_domain_tabs_rt', 'kernel_tabs_rt',
+                 # parse soundness (accepted text is a layout of its tree): general rejection theorems
+                 'kernel_brackets_balanced', 'unbalanced_kernel_rejected', 'missing_assign_rejected', 'dl_value_wellformed']
+THEOREMS = ['Dsd.C13.' + t for t in THEOREM_NAMES] + ['Dsd.PP.Tabs.expandTabs_tok', 'Dsd.PP.Tabs.expandTabs_sep', 'Dsd.PP.Tabs.expand_template', 'Dsd.PP.run_yield', 'Dsd.PP.parseDoc_yield']
 ASSUMPTIONS = [
     'pyparsing 3.3.2 is modelled by a hand-written interpreter (Model/Pyparsing.lean: whitespace/comment skipping, Word maximal munch, '
     'Literal prefix match, Keyword = prefix match not followed by an identifier character, ordered choice, greedy repetition, Combine adjacency, LineEnd at end of input); its agreement with the real '
@@ -54,7 +56,11 @@ MANIFEST = {
             'blanks), document_tabs_rt and the stmtTextT_* instances: every blank position of the statement theorems may hold any '
             'mixture of blanks and tabs, including between the words of a kernel pattern (kernel lemmas generalised to several '
             'blanks). Blanks / tabs at the remaining token boundaries (between the domains of a strand, around "+" and "->", inside '
-            'info boxes and concentrations), decimal / scientific numbers in reactions, error terms, indented '
+            'info boxes and concentrations). REJECTIONS in general form, from PARSE SOUNDNESS (run_yield / parseDoc_yield: whatever the '
+            'parser model accepts, the consumed input is ignorable text and matched terminals in grammar order): '
+            'kernel_brackets_balanced (in any accepted comment-free document the text of every kernel statement has balanced '
+            'parentheses), unbalanced_kernel_rejected (name = pattern with unbalanced parentheses, any pattern text over the pattern '
+            'alphabet: parse error), missing_assign_rejected (a text without "=", ":" and ">" is never accepted), dl_value_wellformed; decimal / scientific numbers in reactions, error terms, indented '
             'statements, file = string and history independence are NOT theorems: they are decided on the real parser by a '
             'reference renderer over grammar-generated token trees in random layouts, and the model is compared with pyparsing on the '
             'same texts, four negative families and random mutations.',
